@@ -40,6 +40,9 @@ var (
 	Rot17     = Emb{"rot17", math.Cos(17 * math.Pi / 180), -math.Sin(17 * math.Pi / 180), math.Sin(17 * math.Pi / 180), math.Cos(17 * math.Pi / 180), 3.25, 1.125}
 	Shear     = Emb{"shear", 1, 0.5, 0, 1, 0, 0}
 	Aniso     = Emb{"aniso", 3, 0, 0, 0.5, 0, 0}
+	// Jitter: the identity plus a deterministic offset of -4..4 x 1e-9 per coordinate and vertex OCCURRENCE (see BuildSalt):
+	// points that coincide in the lattice scenario become near-coincident, closer than the library's 1e-8 snap grid
+	Jitter = Emb{"jitter", 1, 0, 0, 1, 0, 0}
 )
 
 // Contour / Path in lattice units.
@@ -47,11 +50,25 @@ type LContour [][2]int
 type LPath []LContour
 
 // Build constructs the real path: every contour is MoveTo, LineTo..., Close.
-func Build(p LPath, e Emb) *canvas.Path {
+func Build(p LPath, e Emb) *canvas.Path { return BuildSalt(p, e, 0) }
+
+// BuildSalt is Build; under the Jitter embedding the sub-grid offsets depend on (salt, contour, vertex index), so the
+// same lattice point gets different offsets in different operands / contours / positions.
+func BuildSalt(p LPath, e Emb, salt int) *canvas.Path {
 	out := &canvas.Path{}
-	for _, c := range p {
+	jitter := strings.HasPrefix(e.Name, "jitter")
+	for ci, c := range p {
 		for i, v := range c {
 			x, y := e.Map(float64(v[0]), float64(v[1]))
+			if jitter {
+				h := uint32(2166136261)
+				for _, k := range []int{salt, ci, i, v[0], v[1]} {
+					h = (h ^ uint32(k+7)) * 16777619
+				}
+				h >>= 3
+				x += float64(int(h%9)-4) * 1e-9
+				y += float64(int(h/9%9)-4) * 1e-9
+			}
 			if i == 0 {
 				out.MoveTo(x, y)
 			} else {
